@@ -363,7 +363,7 @@ func init() {
 			var o *mon.Obj
 			var desc string
 			if i >= nMut {
-				o, desc = directedCase(c, (i-nMut)*4)
+				o, desc = directedCase(c, directedPick(c, i-nMut))
 			} else {
 				o, desc, _ = unionCase(c, i, &c14Mut)
 			}
